@@ -589,3 +589,121 @@ def _span_of_block(f, b):
         if st[0] == "=":
             return st[3]
     return [0, f.line, 0, f.line, ""]
+
+
+# ------------------------------------------------------------------------------------------ R5g: who attributes usages
+def r5g_usage_attribution(ctx):
+    r = Result("R5g", "a function that reads the usage index (`usages` / `usage_by_fixture`) and attributes usages to definitions "
+                      "resolves them through the navigation cascade (the core resolver and its wrappers, checked by R5c), never "
+                      "through a sibling resolver with selection rules of its own: a second attribution (code lens, a counter) that "
+                      "uses another resolver disagrees with find-references on self-referencing overrides and redefined names")
+    from ..facts import DbInfo
+    db = ctx.memo("dbinfo", lambda: DbInfo(ctx))
+    crate = ctx.bin
+    core, non_ex, ex = wrappers(ctx)
+    if core is None:
+        r.anchor_missing("resolver core", "not found by role")
+        return r
+    own_sites = defaultdict(int)
+    for s in _def_sites(ctx):
+        if "line" in s.fields and s.klass != "extremum":
+            continue  # a lookup by position (file, line) identifies a definition, it does not resolve a name
+        own_sites[s.fn.root] += 1
+    # functions resolving through the cascade: the core, its wrappers and everything that calls them
+    via_core = {core.id, non_ex, ex}
+    changed = True
+    while changed:
+        changed = False
+        for f in crate.real_fns():
+            if f.root in via_core:
+                continue
+            if any(c.get("res") in via_core for _b, c in f.calls()):
+                via_core.add(f.root)
+                changed = True
+    readers = set()
+    for m in ("usages", "usage_by_fixture"):
+        for op in db.ops_by_map.get(m, []):
+            if op.mode == "S":
+                readers.add(op.fn.root)
+    n = 0
+    for root in sorted(readers):
+        fam = [g for g in crate.real_fns() if g.root == root]
+        for g in fam:
+            for bb, c in g.calls():
+                res = c.get("res")
+                tf = crate.fns.get(res) if c.get("res_local") else None
+                if tf is None or tf.root == root or "FixtureDefinition" not in tf.ret or "Option" not in tf.ret:
+                    continue
+                n += 1
+                key = "R5g|%s|%s" % (root, res.split("::")[-1])
+                if tf.root in via_core or own_sites.get(tf.root, 0) == 0:
+                    r.ok(sample={"reader": root.split("::")[-1], "resolves_through": res.split("::")[-1]})
+                else:
+                    r.violate(key, "%s reads the usage index and attributes usages with %s, a resolver with %d selection site(s) of its "
+                                   "own outside the navigation cascade" % (root, res, own_sites[tf.root]))
+    r.counts["usage_index_readers"] = len(readers)
+    r.floor("functions reading the usage index", len(readers), 3)
+    return r
+
+
+# ------------------------------------------------------------------------------------------ R5h: usage under the cursor first
+def r5h_usage_before_definition_line(ctx):
+    r = Result("R5h", "in a cursor-driven function (one that reads Position.character or takes a `character` column) a definition "
+                      "looked up by line (a positional lookup: its selection tests `line`) is consulted only after the resolution "
+                      "of the usage under the cursor came back empty (the call is dominated by the None edge of an "
+                      "Option<FixtureDefinition>), except inside the usage resolver itself (which uses it for the self-reference "
+                      "exclusion, R5c): on `def f(f):` the line holds a definition AND a usage, and the cursor column decides")
+    crate = ctx.bin
+    core, non_ex, ex = wrappers(ctx)
+    if core is None:
+        r.anchor_missing("resolver core", "not found by role")
+        return r
+    positional = set()
+    by_root = defaultdict(list)
+    for s in _def_sites(ctx):
+        by_root[s.fn.root].append(s)
+    for root, ss in by_root.items():
+        f = crate.fns.get(root)
+        if f is not None and "Option" in f.ret and "FixtureDefinition" in f.ret and all("line" in s.fields for s in ss) \
+                and not any(s.klass == "extremum" for s in ss):
+            # a pure lookup: it does not itself call another function that produces a definition
+            fam0 = [g for g in crate.real_fns() if g.root == root]
+            if not any(c.get("res_local") and c.get("res") in crate.fns and crate.fns[c["res"]].root != root
+                       and "FixtureDefinition" in crate.fns[c["res"]].ret and "Option" in crate.fns[c["res"]].ret
+                       for g in fam0 for _b, c in g.calls()):
+                positional.add(root)
+    r.counts["positional_lookups"] = ",".join(sorted(x.split("::")[-1] for x in positional))
+    n = 0
+    roots = defaultdict(list)
+    for f in crate.real_fns():
+        roots[f.root].append(f)
+    for root, fam in sorted(roots.items()):
+        cursor = False
+        for g in fam:
+            if any(g.local_ty(i) == "u32" and (g.local_name(i) or "") in ("character", "col", "column") for i in range(1, g.argc + 1)):
+                cursor = True
+            for bb, si, pl, rv, sp in g.assigns():
+                for p in sel._rv_places(rv):
+                    if p is not None and any(o.endswith("::Position") and nm == "character" for o, nm in proj_fields(place_projs(p))):
+                        cursor = True
+        if not cursor or root in positional:
+            continue
+        if any(c.get("res") == ex for g in fam for _b, c in g.calls()):
+            continue  # the usage resolver proper
+        for g in fam:
+            dom = None
+            for bb, c in g.calls():
+                if c.get("res") not in positional:
+                    continue
+                n += 1
+                dom = dom or g.dominators()
+                key = "R5h|%s|%s" % (root, c["res"].split("::")[-1])
+                if g.kind in ("fn", "method", "coroutine") and _on_none_edge(g, bb, dom):
+                    r.ok(sample={"in": root.split("::")[-1], "positional_lookup": c["res"].split("::")[-1], "after": "usage resolution returned None"})
+                else:
+                    r.violate(key, "%s consults %s at %s before (or instead of) resolving the usage under the cursor: on a line like "
+                                   "`def f(f):` the parameter resolves to the overriding fixture itself" % (
+                                       root, c["res"].split("::")[-1], crate.span_str(c["span"])))
+    r.floor("positional lookups", len(positional), 1)
+    r.floor("positional lookups in cursor-driven functions", n, 1)
+    return r
